@@ -9,11 +9,11 @@ git -C /repo diff --quiet || { echo "selftest: /repo has local changes, refusing
 for ID in $IDS; do
   M=seeded/$ID/meta.json; [ -f $M ] || continue
   PROPS=$(python3 -c "import json; print(' '.join(json.load(open('$M'))['detected_by']))")
-  git -C /repo apply seeded/$ID/patch.diff || { echo "$ID: patch does not apply"; FAIL=1; continue; }
+  git -C /repo apply /verif/seeded/$ID/patch.diff || { echo "$ID: patch does not apply"; FAIL=1; continue; }
   OK=1
   for P in $PROPS; do
-    ./check $P quick > build/selftest_$ID_$P.log 2>&1; RC=$?
-    if [ $RC -eq 0 ] || ! grep -q "^VIOLATION property=$P" build/selftest_$ID_$P.log; then echo "$ID: NOT detected by $P any more"; OK=0; FAIL=1; fi
+    ./check $P quick > build/selftest_${ID}_${P}.log 2>&1; RC=$?
+    if [ $RC -eq 0 ] || ! grep -q "^VIOLATION property=$P" build/selftest_${ID}_${P}.log; then echo "$ID: NOT detected by $P any more"; OK=0; FAIL=1; fi
   done
   git -C /repo checkout -- .
   [ $OK -eq 1 ] && echo "$ID: detected by $PROPS"
